@@ -21,6 +21,7 @@ COQ_OP = {"plain": "OpPlain", "bool": "OpBool", "star": "OpStar", "plus": "OpPlu
 TREE_OP = {"plain": "plain", "optional": "bool", "zeroormore": "star", "oneormore": "plus"}
 LIST_MULTS = ("0..*", "1..*")
 CORPUS = os.path.join(core.VERIF, "corpus", "C02")
+LINK_EVERY = 4      # every n-th generated grammar also goes through the link check against the shared PEG core
 # repetition separators: key -> (grammar text, the token sequences the separator can match; [] = it matches the empty string,
 # in which case Arpeggio puts no separator node into the parse tree)
 SEPS = {
@@ -335,11 +336,11 @@ def gen_case(r, i, thorough):
     for k in range(2):
         rr = r.split("mu%d" % k)
         inputs.append(mutate(r.choice(inputs[:3]), rr))
-    return {"body": b, "grammar": grammar_text(b), "auto_init": r.chance(0.5), "inputs": [" ".join(t) for t in inputs]}
+    return {"body": b, "grammar": grammar_text(b), "auto_init": r.chance(0.5), "inputs": [" ".join(t) for t in inputs], "link": i % (2 if thorough else LINK_EVERY) == 0}
 
 
-def mk_case(body, inputs, auto_init=True):
-    return {"body": body, "grammar": grammar_text(body), "auto_init": auto_init, "inputs": inputs}
+def mk_case(body, inputs, auto_init=True, link=True):
+    return {"body": body, "grammar": grammar_text(body), "auto_init": auto_init, "inputs": inputs, "link": link}
 
 
 def A(a, op="plain", typ="INT", sep=False):
@@ -391,6 +392,84 @@ Definition show_case (b : body) (ats : list (nat * sval)) (nss : list (list anod
   sjoin ";" (map (fun t => sjoin "," (map (fun ad =>
      show_out (build (fst ad) (init_val (infer b (fst ad)) (snd ad)) t) ++ "/" ++
      show_bool (Nat.leb (cap2 (weight (fst ad) t)) (maxcount (fst ad) b))) ats)) trs)."""
+
+
+# ------------------------------------------------------------------ link to the shared PEG core
+LINK_IMPORTS = """From TxV Require Import Core.Base Core.Show Model.MultBase Gen.SrcMult Model.Mult.
+From TxV Require Model.Build.
+From TxV Require Import Model.PegSyntax Model.Peg Model.MultPeg.
+Open Scope string_scope.
+Definition attr_id (s : list N) : nat := match s with [97%N] => 0 | [98%N] => 1 | [99%N] => 2 | _ => 99 end.
+Fixpoint dec (s : list N) (acc : Z) : Z := match s with [] => acc | c :: r => dec r (acc * 10 + Z.of_N (c - 48))%Z end.
+Definition conv_tree (g : grammar) (input : list N) (t : tree) : sval :=
+  match t with
+  | T nid p len _ =>
+    match get_node g nid with
+    | Some nd =>
+      let txt := match PegSyntax.n_kind nd with KStr s _ => s | _ => firstn len (skipn p input) end in
+      if str_eqb (n_rule nd) [73;78;84]%N then SInt (dec txt 0)
+      else if str_eqb (n_rule nd) [83;84;82;73;78;71]%N then SStr (removelast (tl txt))
+      else SStr txt
+    | None => SNone
+    end
+  | NT _ _ => SNone
+  end.
+Definition show_sval (v : sval) : string :=
+  match v with SNone => "N" | SBool b => show_bool b | SInt z => "i" ++ show_Z z | SStr s => "s" ++ show_str s | SObj n => "o" ++ show_nat n end.
+Definition show_op (o : asgop) : string := match o with OpPlain => "=" | OpBool => "?" | OpStar => "*" | OpPlus => "+" end.
+Definition show_child (c : child) : string :=
+  (if c_sep c then "S" else "v") ++ (if c_named_sep c then "n" else "-") ++ show_sval (c_val c).
+Definition show_node (n : anode) : string :=
+  show_nat (n_attr n) ++ show_op (n_op n) ++ show_bool (n_has_sep n) ++ "(" ++ sjoin "," (map show_child (Mult.n_kids n)) ++ ")".
+(* structural check of the dumped rule node against the body, then per input: the Peg.v interpreter's parse and the
+   assignment nodes read off its result *)
+Definition show_link (g : grammar) (mm : list Build.ninfo) (c : config) (b : Mult.body) (nid : nat)
+           (runs : list (list ((nat * nat) * nat) * list N)) : string :=
+  show_bool (den g mm attr_id true b nid) ++ "#" ++
+  sjoin "#" (map (fun ti =>
+    match run g c (orc_of (fst ti)) false 200 (snd ti) with
+    | Parsed (RTree (NT _ (t :: _))) =>
+      match t with
+      | NT n _ => if Nat.eqb n nid then "P" ++ sjoin ";" (map show_node (top_nodes g mm attr_id (conv_tree g (snd ti)) (RTree t))) else "noobj"
+      | _ => "noobj"
+      end
+    | Parsed _ => "noobj"
+    | SyntaxErr _ => "syntax"
+    | Aborted _ => "abort"
+    end) runs)."""
+
+
+def top_body(b):
+    """textX wraps a rule that consists of a single assignment into a Sequence."""
+    return ["seq", [b]] if b[0] == "asg" else b
+
+
+def coq_link(c, o):
+    import pegdump
+    import mmdump
+    lk = o["link"]
+    runs = "; ".join("(%s, %s)" % (pegdump.coq_table(t), pegdump.coq_str(i)) for t, i in zip(lk["tables"], c["inputs"]))
+    # Model/Build.v is not imported in the case files (its constructor names clash with Model/MultBase.v): qualify them
+    mm = re.sub(r"\b(IAsgn|IRule|ITerm|IOther|OpPlain|OpOptional|OpList|OpOther|RCommon|RAbstract|RMatch|mkAttr|M1|MOpt|MStar|MPlus)\b",
+                r"Build.\1", mmdump.coq_mm(lk["mm"]))
+    return "show_link %s %s %s %s %d [%s]" % (pegdump.coq_grammar(lk["dump"]), mm, pegdump.coq_config(lk["dump"]),
+                                              coq_body(top_body(c["body"])), lk["model_nid"], runs)
+
+
+def impl_link(c, o):
+    """What show_link must print, computed from the implementation's parse trees."""
+    out = ["T"]
+    for run in o["runs"]:
+        if run.get("noobj"):
+            out.append("noobj")
+        elif run.get("trace") is None:
+            out.append("syntax" if run["err"] is not None and run["err"][0] == "TextXSyntaxError" else "?")
+        else:
+            out.append("P" + ";".join("%d%s%s(%s)" % (ATTRS.index(at), {"plain": "=", "optional": "?", "zeroormore": "*", "oneormore": "+"}[op],
+                                                       "T" if hs else "F",
+                                                       ",".join(("S" if k[0] else "v") + ("n" if k[1] else "-") + k[2] for k in kids))
+                                  for at, op, vs, kids, hs in run["trace"]))
+    return "#".join(out)
 
 
 def coq_sval(c):
@@ -585,7 +664,8 @@ def model_matches(c, o, mv):
 def run_cases(chk, cases, tag, shard=120):
     chunks = [cases[i::core.NPROC] for i in range(core.NPROC)]
     chunks = [ch for ch in chunks if ch]
-    outs = core.run_impl_parallel("c02", [{"cases": [{"grammar": c["grammar"], "auto_init": c["auto_init"], "inputs": c["inputs"]} for c in ch]} for ch in chunks])
+    outs = core.run_impl_parallel("c02", [{"cases": [{"grammar": c["grammar"], "auto_init": c["auto_init"], "inputs": c["inputs"],
+                                                       "link": bool(c.get("link"))} for c in ch]} for ch in chunks])
     res = {}
     for ch, o in zip(chunks, outs):
         for c, x in zip(ch, o):
@@ -594,6 +674,34 @@ def run_cases(chk, cases, tag, shard=120):
     disagreements, failures = [], []
     if errs:
         disagreements.append({"case": "coq evaluation", "model": errs[:2]})
+    # link to the shared PEG core: the dumped rule node has the structure of the body (den), and the assignment nodes
+    # read off the Peg.v interpreter's result are those of the real parse tree
+    linked = [c for c in cases if c.get("link") and res[id(c)]["gerr"] is None and "dump" in (res[id(c)].get("link") or {})
+              and res[id(c)]["link"]["model_nid"] is not None]
+    for c in cases:
+        if c.get("link") and res[id(c)]["gerr"] is None and "unsupported" in (res[id(c)].get("link") or {}):
+            chk.stat("link: parser model outside the dumper's fragment")
+    lvals, lerrs = core.coq_eval(tag + "L", LINK_IMPORTS, [coq_link(c, res[id(c)]) for c in linked], shard=20)
+    if lerrs:
+        disagreements.append({"case": "coq evaluation (link)", "model": lerrs[:2]})
+    for c, lv in zip(linked, lvals):
+        if lv is None:
+            continue
+        want = impl_link(c, res[id(c)])
+        got = lv.split("#")
+        wl = want.split("#")
+        chk.stat("link: grammars checked")
+        bad = got[0] != "T" or len(got) != len(wl)
+        if not bad:
+            for gx, wx in zip(got[1:], wl[1:]):
+                if wx == "?" or gx == "abort":
+                    chk.stat("link: input skipped (%s)" % ("abort" if gx == "abort" else "timeout/crash on the implementation"))
+                    continue
+                chk.stat("link: inputs compared")
+                if gx != wx:
+                    bad = True
+        if bad:
+            disagreements.append({"case": c, "what": "link to the PEG core (den / nodes of the Peg.v parse)", "impl": want, "model": lv})
     for c, mv in zip(cases, vals):
         o = res[id(c)]
         b = c["body"]
@@ -674,9 +782,9 @@ def run(chk):
         for nodes in range(2, 6):
             for b in enum_bodies(nodes, 2):
                 if has_asg(b):
-                    small.append(mk_case(b, []))
+                    small.append(mk_case(b, [], link=False))
         six = [b for b in enum_bodies(6, 2) if has_asg(b)]
-        small += [mk_case(b, []) for b in chk.rng.split("six").sample(six, 2500)]
+        small += [mk_case(b, [], link=False) for b in chk.rng.split("six").sample(six, 2500)]
         chk.stat("enumerated small bodies", len(small))
         f2, d2 = run_cases(chk, small, "C02e", shard=400)
         failures += f2
